@@ -1,4 +1,6 @@
 import AsherahVerif.Proofs.EnvTimeWF
+import AsherahVerif.Generated.Policy
+import AsherahVerif.Expected.Policy
 /-
 C20 — Key caching avoids external calls, and only for one revoke-check interval.
 
@@ -310,5 +312,16 @@ example : modeOf (applyOp w1 (.advance 61000000000)).2 (sessionCtx w1 0).ikCache
 example : modeOf w1 (sessionCtx w1 0).skCache = .simple ∧
     Hit w1 (sessionCtx w1 0).skCache ⟨.sk, 1700000000⟩ (sessionCtx w1 0).pol.revokeInterval 0 :=
   ⟨by decide, ⟨1700000000000000000, 0⟩, by decide, rfl, by decide⟩
+
+/-- the policy options, defaults and stamp computation of policy.go are the vetted ones (which caches
+exist under which options is what "caching disabled / enabled" in the statements above refers to). -/
+theorem policy_source_as_vetted :
+    Generated.Policy.options = Expected.Policy.options ∧
+    Generated.Policy.defaults = Expected.Policy.defaults ∧
+    Generated.Policy.constants = Expected.Policy.constants ∧
+    Generated.Policy.newCryptoPolicySkeleton = Expected.Policy.newCryptoPolicySkeleton ∧
+    Generated.Policy.newKeyTimestampSkeleton = Expected.Policy.newKeyTimestampSkeleton ∧
+    Generated.Policy.newKeyTimestampReturns = Expected.Policy.newKeyTimestampReturns :=
+  ⟨rfl, rfl, rfl, rfl, rfl, rfl⟩
 
 end AsherahVerif.Props.C20
